@@ -237,7 +237,7 @@ def t_can_be_closed(world):
     for r, okc in ok_paths(res2):
         if ob2.witness(eng2, r, [okc]) is False: continue
         cs = [e for e in flat_events(r['events']) if e[0] == 'call' and re.search(r'can_be_closed$', e[1])]
-        if len(cs) != 1: ob2.structural(f'{len(cs)} can_be_closed calls on an accepting path', 'closable-check'); continue
+        if len(cs) != 1: ob2.shape(len(cs), 1, f'{len(cs)} can_be_closed calls on an accepting path', 'closable-check'); continue
         ob2.prove(eng2, r, [okc], ev(cs[0][3]), 'can_be_closed() was true', role='closable-check')
         loads = [e for e in flat_events(r['events']) if e[0] == 'call' and 'AccountLoader' in e[1] and 'MarginfiAccount' in e[1]]
         if not loads: ob2.fail('no account load'); continue
